@@ -485,6 +485,10 @@ func (option *Option) isFunc() bool {
 func (option *Option) call(value *string) error {
 	var retval []reflect.Value
 
+	if option.value.IsNil() {
+		return newErrorf(ErrMarshal, "flag `%s' has no function to call", option)
+	}
+
 	if value == nil {
 		retval = option.value.Call(nil)
 	} else if option.value.Type().NumIn() == 0 {
